@@ -192,6 +192,8 @@ def _drive_pair(c):
         if op != "scl":
             tb.append(_truth(x) if x is not None else -2)
     o["tb"] = tb
+    if c["lite"]:
+        return o, 6
     o["ba"] = _call(lambda: b * a)
     o["rev_ab"] = _call(lambda: (a * b).rev())
     o["revb_reva"] = _call(lambda: b.rev() * a.rev())
@@ -446,7 +448,12 @@ def _judge(recs, wd, out, tag):
         bykind.setdefault(r["c"]["k"], []).append(r)
     shards = []
     for k, rs in sorted(bykind.items()):
-        size = {"bilin": 1200, "prog": 3000, "unary": 4500, "eq": 8000, "sym": 2000}.get(k, 25000)
+        target = {"bilin": 1200, "prog": 3000, "unary": 4500, "eq": 8000, "sym": 2000}.get(k, 25000)
+        # balanced shards, in multiples of the 4 JVMs that judge concurrently
+        nsh = -(-len(rs) // target)
+        if nsh > 2:
+            nsh = -(-nsh // 4) * 4
+        size = -(-len(rs) // nsh)
         shards += kit.write_shards(rs, wd / "trace", f"c18_{tag}_{k}", size)
     verdicts, st, tr = kit.judge_shards("C18_Judge", "C18_Judge", shards)
     out.states += st
@@ -484,7 +491,7 @@ def _nontrivial(c):
 
 BUGS = ["crs", "metric", "inner", "lc", "rev", "prune"]
 # thorough tier: the exhaustive space is generated in slices (kind, number of slices)
-THOROUGH_SLICES = [("pair", 8), ("triple", 8), ("unary", 2), ("bilin", 1), ("eq", 1), ("sym", 1)]
+THOROUGH_SLICES = [("pair", 12), ("triple", 6), ("unary", 2), ("bilin", 1), ("eq", 1), ("sym", 1)]
 
 
 def _cases_of(res):
@@ -583,7 +590,7 @@ def run(tier, seed, out):
     else:
         with cf.ThreadPoolExecutor(max_workers=6) as ex:
             fbug = [ex.submit(_bug, b) for b in BUGS]
-            fsim = [ex.submit(_sim, tier, seed, i, 6000) for i in range(8)]
+            fsim = [ex.submit(_sim, tier, seed, i, 4000) for i in range(8)]
             for kind, ns in THOROUGH_SLICES:
                 for k in range(ns):
                     g = _gen(tier, env={"C18_KIND": kind, "C18_SLICE": str(k),
